@@ -405,7 +405,7 @@ std::vector<Sub> vh_subs() {
   {
     Sub s;
     s.name = "entry";  // module-level entry points: exact extents, exact scratch, prefill differential
-    s.fields = {{"k", 1, 16}, {"e", 0, E_COUNT - 1}, {"mtype", 0, 1}, {"cfg", 0, 1}, {"s1", 0, 4}, {"s2", 0, 4}, {"nrows", 1, 4}, {"ncols", 1, 4}, {"pad", 0, 3},
+    s.fields = {{"k", 1, 16}, {"e", 0, E_COUNT - 1}, {"mtype", 0, 1}, {"cfg", 0, 1}, {"s1", 0, 4}, {"s2", 0, 4}, {"nrows", 1, 32}, {"ncols", 1, 32}, {"pad", 0, 3},
                 {"kk", 1, 62}, {"begin", 0, 2}, {"step", 1, 3}, {"bits", 1, 18}, {"pf1", 0, 3}, {"pf2", 0, 3}, {"seed", 0, INT64_MAX - 1}};
     s.run = [](const Vals& v, Ctx& ctx) {
       Shape sh;
